@@ -1,5 +1,5 @@
 """Property -> rules map."""
-from . import rules_case, lea_glue
+from . import rules_case, lea_glue, rules_struct
 
 PROPS = {}
 
@@ -25,6 +25,7 @@ def c16(cx):
              "(checkpoint typestate). Decides these shape-visible necessary conditions of totality, not linearity.")
 def c01(cx):
     lea_glue.apply(cx, ["R-PROGRESS", "R-PANIC", "R-9XXX", "R-CKPT"])
+    rules_struct.r_pair_counters(cx, cx.facts("dev-none-stable"))
 
 
 @prop("C04", "LEA rules R-NEWLINE (every consumed character that may be a line feed is followed by add_line() before "
@@ -32,6 +33,7 @@ def c01(cx):
              "dominated by look-ahead evidence on every path). Decides the line-table half; column arithmetic via C05.")
 def c04(cx):
     lea_glue.apply(cx, ["R-NEWLINE", "R-ADVANCE-EVIDENCE"])
+    rules_struct.r_restore(cx, cx.facts("dev-none-stable"))
 
 
 @prop("C06", "LEA rules R-CHANNEL (constant channel/type sets of every emission satisfy the channel policy of the "
@@ -53,6 +55,9 @@ def c09(cx):
              "where sections begin and end, not the unquoted content.")
 def c07(cx):
     lea_glue.apply(cx, ["R-SECTION"])
+    fx = cx.facts("dev-none-stable")
+    rules_struct.r_hex_sink(cx, fx)
+    rules_struct.r_restore(cx, fx)
 
 
 @prop("C10", "LEA rules R-RETYPE-GUARD (a token is retyped through the same look-behind accessor that guarded it) and "
@@ -72,6 +77,43 @@ def c13(cx):
              "argument, '=' after the %let name, '/' after the %copy name, ';' last) and R-ERR-PAIR when built.")
 def c14(cx):
     lea_glue.apply(cx, ["R-EXPECT-TABLE"])
+
+
+@prop("C03", "structural rules R-CURSOR-COUNT (every chars.next() of Cursor::advance/advance_by is matched by +1 on "
+             "char_offset, in the debug and the release configuration; nobody else writes the field) and R-UNITS (a "
+             "byte/code-point dimension analysis: ByteOffset::new, CharOffset::new, str slicing bounds and comparisons "
+             "never mix the two units).")
+def c03(cx):
+    rules_struct.r_cursor_count(cx, ["dev-none-stable", "rel-none-stable"])
+    rules_struct.r_units(cx, ["dev-none-stable", "dev-msep-stable"])
+
+
+@prop("C02", "structural rules R-RESTORE (rollback restores cursor / stack length and truncates tokens, lines and the "
+             "literal buffer to exactly what checkpoint captured, on every path), R-EOF (EOF only from finalize_lexing / "
+             "into_detached, lex() always ends through them), R-BOM-ORDER. Offsets-provenance rules are listed in "
+             "the evidence when built.")
+def c02(cx):
+    fx = cx.facts("dev-none-stable")
+    rules_struct.r_restore(cx, fx)
+    rules_struct.r_eof(cx, fx)
+    rules_struct.r_bom_order(cx, fx)
+
+
+@prop("C12", "R-PAIR-COUNTERS (macro nesting level and pending-statement frames are opened only by %macro/%do and "
+             "closed only by %mend/%end, one operation each) and the residual-state part of R-CKPT (owners always "
+             "resolve their checkpoint).")
+def c12(cx):
+    fx = cx.facts("dev-none-stable")
+    rules_struct.r_pair_counters(cx, fx)
+    lea_glue.apply(cx, ["R-CKPT"])
+
+
+@prop("C17", "R-BOM-ORDER: the BOM constant is only looked at in Lexer::new, where it is eaten before the first "
+             "offsets are snapshotted and the first line is added with those post-BOM offsets; R-UNITS.")
+def c17(cx):
+    fx = cx.facts("dev-none-stable")
+    rules_struct.r_bom_order(cx, fx)
+    rules_struct.r_units(cx, ["dev-none-stable"])
 
 
 def run(cx):
